@@ -352,7 +352,7 @@ def locate_diff(ra, rb, seed, tier):
 
 _c17_quick_base = [
     hist("hist-d2-san", "san", 2, weight=2), SW3,
-    hist("inv-d1r-san", "san", 1, reduced=1, family="inv", weight=3),
+    hist("inv-d0-san", "san", 0, family="inv", weight=1),       # the invalid calls after a one-operation prefix run on this build in C07/C18 quick and in this check's thorough tier
     lp("S0mk-sanl1-k1x", "sanl1", "S0mk", "k1x", weight=3),
     fam("rd-LP-k1-san", "san", "rd", {"fmt": "LP", "k": 1}, weight=1),
     fam("rd-MPS-k1-san", "san", "rd", {"fmt": "MPS", "k": 1}, weight=1),
@@ -372,7 +372,7 @@ PLANS["C17"] = {
              "rationals, bases and written files, and selected explorations are executed twice - 16 versus 13 shards (different item order per process), MALLOC_PERTURB_, shifted stack - with the XOR of the per-item "
              "hashes compared (a difference is located by a per-item transcript dump); thorough adds Valgrind memcheck (uninitialised values fatal) on the -O2 build"),
     "quick": [dict(r, range=[0, 8000]) if r["id"] == "copy-s1-san" else r for r in _c17_quick_base] + _det_quick + [twin(r) for r in _det_quick],
-    "thorough": _c17_quick_base + [fam("cpar-san", "san", "cpar", {}, weight=3, crash_props=["C17", "C16"]), hist("hist-d3r-san", "san", 3, reduced=1, weight=6), fam("copy-s2-san", "san", "copy", {"steps": 2}, weight=1, range=[0, 150000]),
+    "thorough": _c17_quick_base + [hist("inv-d1r-san", "san", 1, reduced=1, family="inv", weight=3), fam("cpar-san", "san", "cpar", {}, weight=3, crash_props=["C17", "C16"]), hist("hist-d3r-san", "san", 3, reduced=1, weight=6), fam("copy-s2-san", "san", "copy", {"steps": 2}, weight=1, range=[0, 150000]),
                                    lp("S0c-sanl1-default", "sanl1", "S0c", "default", weight=4), lp("T-san-default", "san", "T", "default", weight=3, opts={"fam": "T", "cfg": "default", "tscale": 30}),
                                    hist("hist-d2-valgrind", "prod", 2, weight=8, wrapper=VALGRIND, timeout=600),
                                    lp("S0q1-valgrind", "prodl1", "S0q1", "k1x", weight=4, wrapper=VALGRIND, timeout=600),
@@ -380,7 +380,7 @@ PLANS["C17"] = {
                 + [twin(hist("hist-d3r-prod", "prod", 3, reduced=1, weight=2)), twin(lp("S0c-k1-prodl1", "prodl1", "S0c", "k1", weight=6))] + _det_quick + [twin(r) for r in _det_quick],
     "post": c17_post,
     "deadline": {"quick": 1200, "thorough": 2400},
-    "bounds": {"quick": "sanitizer build: depth-2 histories, 35k invalid calls, S0mk x entry/pricing/scaling configurations, rendered and written files, all bases of S1q, the first 8000 copy interleavings (all of them in C16/C18 quick and here in thorough); double execution of depth-2 histories, S0q1 x K<=1 and MPS chains",
+    "bounds": {"quick": "sanitizer build: depth-2 histories, solve ; op ; solve histories, the invalid calls on the start problems, S0mk x entry/pricing/scaling configurations, rendered and written files, all bases of S1q, the first 8000 copy interleavings (all of them in C16/C18 quick and here in thorough); double execution of depth-2 histories, S0q1 x K<=1 and MPS chains",
                "thorough": "adds depth-3 reduced histories and S0c/T on the sanitizer build, Valgrind memcheck on depth-2 histories and S0q1, double execution of depth-3 histories and S0c x K<=1"},
     "evidence": {"states": ["histories", "instances", "invalid_calls", "bases"], "transitions": ["api_transitions", "executions"], "nontrivial": ["histories", "instances_nontrivial", "invalid_calls"]},
     "assumptions": ["clang UBSan's pointer-overflow check is disabled: it flags NULL+0 in ILLlib_newrows on the path the repository's own test takes; no access is performed",
